@@ -280,7 +280,7 @@ func (w *world) userStep() {
 				return
 			}
 		}
-	case x < 94: // tunnel address
+	case x < 92: // tunnel address
 		nodes := w.usableNodes()
 		if len(nodes) == 0 {
 			return
@@ -313,6 +313,36 @@ func (w *world) userStep() {
 		ips := w.cniAssign("vxlan-tunnel-addr-"+n, n, map[string]string{ipam.AttributeNode: n, ipam.AttributeType: tunnelType}, false, apiv3.IPPoolAllowedUseTunnel)
 		w.logf("tunnel-assign %s %v", n, ips)
 		w.c.Count("tunnel_addresses_assigned", int64(len(ips)))
+	case x < 95: // an empty block is handed from one node to another (ReleaseAffinity + ClaimAffinity)
+		nodes := w.usableNodes()
+		type eb struct{ cidr, host string }
+		var empties []eb
+		w.st.View(func(v casstore.View) {
+			for _, kvp := range v.Blocks() {
+				b := kvp.Value.(*model.AllocationBlock)
+				if _, nonNil, _ := blockAllocs("", b); nonNil == 0 && b.Affinity != nil && strings.HasPrefix(*b.Affinity, "host:") {
+					empties = append(empties, eb{kvp.Key.(model.BlockKey).CIDR.String(), strings.TrimPrefix(*b.Affinity, "host:")})
+				}
+			}
+		})
+		if len(empties) == 0 || len(nodes) < 2 {
+			return
+		}
+		e := empties[r.Intn(len(empties))]
+		to := nodes[r.Intn(len(nodes))]
+		if to == e.host {
+			return
+		}
+		_, cidr, err := cnet.ParseCIDR(e.cidr)
+		if err != nil {
+			return
+		}
+		if err := w.cni.ReleaseAffinity(context.Background(), *cidr, e.host, true); err != nil {
+			return
+		}
+		_, _, err = w.cni.ClaimAffinity(context.Background(), *cidr, ipam.AffinityConfig{AffinityType: ipam.AffinityTypeHost, Host: to})
+		w.logf("block-handover %s from %s to %s err=%v", e.cidr, e.host, to, err != nil)
+		w.c.Count("block_handovers", 1)
 	case x < 96: // allocation of unknown source on a node
 		nodes := w.usableNodes()
 		if len(nodes) == 0 {
@@ -516,15 +546,16 @@ func run(c *harness.Case) {
 	w.start(true)
 
 	steps := 40 + r.Intn(c.Pick(30, 60))
-	lazy := r.Intn(3) == 0
+	lazy := r.Intn(4) == 0
 	for i := 0; i < steps && !c.Failed(); i++ {
 		switch x := r.Intn(100); {
 		case x < 34:
 			w.userStep()
 		case x < 48:
-			if lazy && r.Intn(3) != 0 {
-				// a slow syncer: most delivery slots pass without one; a watch failure re-lists instead
-				if r.Intn(4) == 0 {
+			if lazy {
+				// a syncer whose watch keeps failing: it only ever re-lists, so the controller sees
+				// snapshots of the latest revisions and never the revisions in between
+				if r.Intn(2) == 0 {
 					w.resyncSyncer()
 				}
 				continue
